@@ -273,7 +273,6 @@ func c26body(c c26cfg) func(x *vsched.Exec) {
 	}
 }
 
-
 // c26backlog: a slow consumer. The callback of the first message blocks until the ender has cancelled the context;
 // meanwhile 19 more messages arrive: 16 fill the subscription's buffer and the connection's reader waits with the next
 // one. Receive must return the context error, the delivered messages must be an in-order prefix, and the connection
